@@ -41,38 +41,55 @@ ShapeConv(shape, t) ==
    ELSE IF shape.kind = "test" THEN (IF shape.conv THEN [ok |-> TRUE, st |-> t] ELSE Err("ConvError"))
    ELSE LET r == Lookup(t) IN IF r.ok THEN [ok |-> TRUE, st |-> r.t] ELSE Err("UnsupportedType")
 
-ParseF(s, shape, tab) ==
-  LET E(e) == Err(WrapErr(shape, e)) IN
-  IF ~StartsWith(s, PKG) THEN E("UnsupportedUrlScheme") ELSE
+(***************************************************************************)
+(* from_str in three stages, so that the same operators serve the composed *)
+(* ParseF and the step machine of ShapeMachine.tla (C14: where the user's  *)
+(* conversion and hook are called).                                        *)
+(*   ParseFront : scheme, slashes, '#', '?', empty check, type split and   *)
+(*                type syntax check (parse.rs:172-207)                     *)
+(*   ShapeConv  : T::from_str(type) (parse.rs:209)                         *)
+(*   ParseBack  : '@', last '/', namespace, name (parse.rs:211-228)        *)
+(*   BuildF     : build() (parse.rs:230)                                   *)
+(***************************************************************************)
+ParseFront(s) ==
+  IF ~StartsWith(s, PKG) THEN Err("UnsupportedUrlScheme") ELSE
   LET s1 == TrimStart(Drop(s, 4), SLASH)
       ih == LastIdx(s1, HASH)
       rsub == IF ih = 0 THEN [ok |-> TRUE, s |-> <<>>] ELSE DecodeSubpath(Drop(s1, ih))
       s2 == IF ih = 0 THEN s1 ELSE Take(s1, ih - 1)
-  IN IF ~rsub.ok THEN E(rsub.err) ELSE
+  IN IF ~rsub.ok THEN rsub ELSE
   LET iq == LastIdx(s2, QM)
       rq == IF iq = 0 THEN [ok |-> TRUE, q |-> <<>>] ELSE DecQuals(Split(Drop(s2, iq), AMP), <<>>)
       s3 == IF iq = 0 THEN s2 ELSE Take(s2, iq - 1)
-  IN IF ~rq.ok THEN E(rq.err) ELSE
-  IF s3 = <<>> THEN E("MissingType") ELSE
+  IN IF ~rq.ok THEN rq ELSE
+  IF s3 = <<>> THEN Err("MissingType") ELSE
   LET it == FirstIdx(s3, SLASH) IN
-  IF it = 0 THEN E("MissingName") ELSE
-  LET type == Take(s3, it - 1)
-      s4 == Drop(s3, it)
-  IN IF ~ValidType(type) THEN E("InvalidPackageType") ELSE
-  LET conv == ShapeConv(shape, type) IN
-  IF ~conv.ok THEN conv ELSE
-  LET ia == LastIdx(s4, AT)
+  IF it = 0 THEN Err("MissingName") ELSE
+  LET type == Take(s3, it - 1) IN
+  IF ~ValidType(type) THEN Err("InvalidPackageType")
+  ELSE [ok |-> TRUE, type |-> type, rest |-> Drop(s3, it), q |-> rq.q, sub |-> rsub.s]
+ParseBack(f) ==
+  LET s4 == f.rest
+      ia == LastIdx(s4, AT)
       rver == IF ia = 0 THEN [ok |-> TRUE, s |-> <<>>] ELSE Decode(Drop(s4, ia))
       s5 == IF ia = 0 THEN s4 ELSE Take(s4, ia - 1)
-  IN IF ~rver.ok THEN E("InvalidEscape") ELSE
+  IN IF ~rver.ok THEN Err("InvalidEscape") ELSE
   LET in == LastIdx(s5, SLASH)
       rns == IF in = 0 THEN [ok |-> TRUE, s |-> <<>>] ELSE DecodeNamespace(Take(s5, in - 1))
       rawname == IF in = 0 THEN s5 ELSE Drop(s5, in)
-  IN IF ~rns.ok THEN E(rns.err) ELSE
+  IN IF ~rns.ok THEN rns ELSE
   LET rname == Decode(rawname) IN
-  IF ~rname.ok THEN E("InvalidEscape") ELSE
-  BuildF(shape, conv.st, [ns |-> rns.s, name |-> rname.s, ver |-> rver.s, quals |-> rq.q, sub |-> rsub.s], tab)
+  IF ~rname.ok THEN Err("InvalidEscape")
+  ELSE [ok |-> TRUE, parts |-> [ns |-> rns.s, name |-> rname.s, ver |-> rver.s, quals |-> f.q, sub |-> f.sub]]
+ParseF(s, shape, tab) ==
+  LET f == ParseFront(s) IN
+  IF ~f.ok THEN Err(WrapErr(shape, f.err)) ELSE
+  LET conv == ShapeConv(shape, f.type) IN
+  IF ~conv.ok THEN conv ELSE
+  LET bk == ParseBack(f) IN
+  IF ~bk.ok THEN Err(WrapErr(shape, bk.err)) ELSE
+  BuildF(shape, conv.st, bk.parts, tab)
 
 \* outcome as printed in cases: value plus canonical string
-Outcome(r) == IF r.ok THEN [ok |-> TRUE, v |-> r.v, str |-> FormatSpec(r.v)] ELSE r
+Outcome(r) == IF r.ok THEN [ok |-> TRUE, v |-> r.v, str |-> IF ValidType(r.v.type) THEN FormatSpec(r.v) ELSE [panic |-> TRUE]] ELSE r
 =============================================================================
